@@ -38,6 +38,8 @@ Fails(e) ==
   \o F("predicate-disagrees-with-decoder", (e.q <=> e.dq) /\ (e.nd <=> e.dnd) /\ (e.dec <=> e.ddec) /\ (e.dt <=> e.ddt))
   \o F("encoder-unquoted-not-identical", e.enc = "unquoted" => (e.decoded = "str" /\ ~e.q /\ e.dstr = e.s))
   \o F("encoder-quoted-differs", e.enc = "quoted" => e.redec \in {"same", "folded-same"})
+  \o F("lexer-token-classified-differently", e.lexdiff = <<>>)        \* the token the lexer yields for this text vs Token(text, grammar, decoder)
+  \o F("number-or-date-loaded-as-name", num => ~e.nameok)             \* `<text> = 1` accepted by the dialect's loader with <text> as the name
   \o F("ref-class", ref = "unspec" \/ ref = CodeClass(e))
 Verdict == PrintT(ToJson([i |-> i, fails |-> Fails(E), ref |-> Classify(E.d, E.s).c]))
 =============================================================================
